@@ -51,7 +51,7 @@ unsafe impl<T: Flat> Flat for PhantomData<T> {}
 unsafe impl<T: Flat, const N: usize> FlatValidate for [T; N] {
     unsafe fn validate_unchecked(bytes: &[u8]) -> Result<(), Error> {
         for i in 0..N {
-            T::validate_unchecked(bytes.get_unchecked((i * T::SIZE)..).get_unchecked(..T::SIZE))?;
+            T::validate_unchecked(bytes.get_unchecked((i * T::SIZE)..).get_unchecked(..T::SIZE)).map_err(|e| e.offset(i * T::SIZE))?;
         }
         Ok(())
     }
